@@ -15,6 +15,7 @@ D6 stop point    the last round is cut at [:after_step + 1] (inclusive).
 import ast
 
 from .. import tables, enumtab, alias, astutil
+from .. import provarr as pa
 from ..model import norm, AnalysisError, const_value
 from spec import fips
 from .c06 import d6 as ownership
@@ -115,83 +116,258 @@ def d2(ctx, prog):
     ctx.check(bool(r) and r[0] == 'func' and r[1] is f, 'C05-D2', f'{A}::inv_add_round_key', 'inv_add_round_key is not add_round_key', 'inv_add_round_key is add_round_key', f.where())
 
 
-def mix_relation(f):
-    """output byte j <- {(table, input byte r)} from the loop of mix_column-like function f"""
-    loops = [n for n in f.node.body if isinstance(n, ast.For)]
-    if len(loops) != 1 or norm(loops[0].iter).replace(' ', '') != 'range(4)' or not isinstance(loops[0].target, ast.Name):
-        raise AnalysisError(f'{f.name}: loop over the four input bytes not recognised')
-    loop = loops[0]
-    var = loop.target.id
-    # data = vectors.reshape((-1, 4)); out = zeros
-    out = [set() for _ in range(4)]
-    for row in range(4):
-        tmp = None
-        for st in loop.body:
-            if not (isinstance(st, ast.Assign) and isinstance(st.targets[0], ast.Name)):
-                raise AnalysisError(f'{f.name}: statement `{norm(st)[:50]}` not modelled')
-            tgt, v = st.targets[0].id, st.value
-            if isinstance(v, ast.Attribute) and v.attr == 'T' and isinstance(v.value, ast.Call) and norm(v.value.func).split('.')[-1] == 'array':
-                items = v.value.args[0].elts
-                if len(items) != 4:
-                    raise AnalysisError(f'{f.name}: column vector does not have 4 entries')
-                vec = []
-                for it in items:
-                    if isinstance(it, ast.Subscript) and isinstance(it.value, ast.Name) and it.value.id.startswith('XTIME_'):
-                        tab, idx = it.value.id, it.slice
-                    else:
-                        tab, idx = 'ID', it
-                    if not (isinstance(idx, ast.Subscript) and norm(idx).replace(' ', '') == f'data[:,{var}]'):
-                        raise AnalysisError(f'{f.name}: entry `{norm(it)[:40]}` is not a table of data[:, {var}]')
-                    vec.append((tab, row))
-                tmp = vec
-            elif isinstance(v, ast.Call) and norm(v.func).split('.')[-1] == 'roll':
-                kws = {k.arg: k.value for k in v.keywords}
-                if norm(v.args[0]) != tgt or tmp is None or norm(kws.get('axis')) != '-1':
-                    raise AnalysisError(f'{f.name}: roll not understood')
-                sh = kws.get('shift')
-                if isinstance(sh, ast.UnaryOp) and isinstance(sh.op, ast.USub) and isinstance(sh.operand, ast.Name) and sh.operand.id == var:
-                    s = -row
+class MixEval:
+    """provenance evaluation (sa.provarr) of a column-mixing primitive: the function body is walked with arrays of provenance sets
+    - element = set of (table, input byte) edges, xor = symmetric difference - over a fixed small shape (two batch items)."""
+
+    def __init__(self, prog, mod, depth=0):
+        self.prog, self.mod, self.depth = prog, mod, depth
+
+    def run(self, f, args):
+        env = dict(zip(f.params, args))
+        try:
+            self.block(f, f.node.body, env)
+        except _Ret as r:
+            return r.value
+        raise pa.Unknown(f'{f.name}: no return reached')
+
+    def block(self, f, stmts, env):
+        for st in stmts:
+            if isinstance(st, ast.Expr):
+                continue          # docstring / argument check (no value flows out of it)
+            if isinstance(st, ast.Return):
+                raise _Ret(self.ev(f, st.value, env))
+            if isinstance(st, ast.Assign) and len(st.targets) == 1:
+                v = self.ev(f, st.value, env)
+                t = st.targets[0]
+                if isinstance(t, ast.Name):
+                    env[t.id] = v
+                elif isinstance(t, ast.Subscript) and isinstance(t.value, ast.Name) and isinstance(env.get(t.value.id), pa.PArr):
+                    env[t.value.id][self.index(f, t.slice, env)] = v
                 else:
-                    s = row if (isinstance(sh, ast.Name) and sh.id == var) else const_value(sh)
-                if not isinstance(s, int):
-                    raise AnalysisError(f'{f.name}: roll shift not understood')
-                tmp = [tmp[(j - s) % 4] for j in range(4)]          # numpy.roll: out[j] = in[j - shift]
-            elif isinstance(v, ast.Call) and norm(v.func).split('.')[-1] == 'bitwise_xor':
-                if tmp is None or sorted(norm(a) for a in v.args) != sorted([tgt, 'tmp']):
-                    raise AnalysisError(f'{f.name}: accumulation is not out = out xor tmp')
-                for j in range(4):
-                    out[j].add(tmp[j])
-            else:
-                raise AnalysisError(f'{f.name}: statement `{norm(st)[:50]}` not modelled')
-    return out
+                    raise pa.Unknown(f'{f.name}: store `{norm(t)[:40]}`')
+                continue
+            if isinstance(st, ast.AugAssign) and isinstance(st.op, ast.BitXor):
+                v = self.ev(f, st.value, env)
+                t = st.target
+                if isinstance(t, ast.Name) and isinstance(env.get(t.id), pa.PArr):
+                    env[t.id] = env[t.id].xor(v)
+                elif isinstance(t, ast.Subscript) and isinstance(t.value, ast.Name) and isinstance(env.get(t.value.id), pa.PArr):
+                    i = self.index(f, t.slice, env)
+                    env[t.value.id][i] = env[t.value.id][i].xor(v)
+                else:
+                    raise pa.Unknown(f'{f.name}: `{norm(st)[:40]}`')
+                continue
+            if isinstance(st, ast.For) and not st.orelse:
+                it = self.ev(f, st.iter, env)
+                if not isinstance(it, (range, list, tuple)) or len(it) > 64:
+                    raise pa.Unknown(f'{f.name}: loop over `{norm(st.iter)[:40]}`')
+                for x in it:
+                    if isinstance(st.target, ast.Name):
+                        env[st.target.id] = x
+                    elif isinstance(st.target, ast.Tuple) and isinstance(x, tuple) and len(x) == len(st.target.elts) and all(isinstance(t_, ast.Name) for t_ in st.target.elts):
+                        for t_, x_ in zip(st.target.elts, x):
+                            env[t_.id] = x_
+                    else:
+                        raise pa.Unknown(f'{f.name}: loop target')
+                    self.block(f, st.body, env)
+                continue
+            raise pa.Unknown(f'{f.name}: statement `{norm(st)[:50]}` not modelled')
+
+    def index(self, f, sl, env):
+        if isinstance(sl, ast.Tuple):
+            return tuple(self.index(f, x, env) for x in sl.elts)
+        if isinstance(sl, ast.Slice):
+            g = lambda x: None if x is None else self.ev(f, x, env)    # noqa: E731
+            return slice(g(sl.lower), g(sl.upper), g(sl.step))
+        v = self.ev(f, sl, env)
+        if v is Ellipsis or isinstance(v, (int, list, tuple)):
+            return v
+        raise pa.Unknown(f'{f.name}: index `{norm(sl)[:30]}`')
+
+    def ev(self, f, e, env):
+        if isinstance(e, ast.Constant):
+            return e.value
+        if isinstance(e, ast.Name):
+            if e.id in env:
+                return env[e.id]
+            raise pa.Unknown(f'{f.name}: name {e.id}')
+        if isinstance(e, (ast.Tuple, ast.List)):
+            vals = [self.ev(f, x, env) for x in e.elts]
+            return tuple(vals) if isinstance(e, ast.Tuple) else vals
+        if isinstance(e, ast.UnaryOp) and isinstance(e.op, ast.USub):
+            v = self.ev(f, e.operand, env)
+            if isinstance(v, int):
+                return -v
+        if isinstance(e, ast.BinOp):
+            l, r = self.ev(f, e.left, env), self.ev(f, e.right, env)
+            if isinstance(e.op, ast.BitXor) and isinstance(l, pa.PArr) and isinstance(r, pa.PArr):
+                return l.xor(r)
+            if isinstance(l, int) and isinstance(r, int) and not isinstance(l, bool):
+                import operator
+                ops = {ast.Add: operator.add, ast.Sub: operator.sub, ast.Mult: operator.mul, ast.FloorDiv: operator.floordiv, ast.Mod: operator.mod}
+                if type(e.op) in ops and not (isinstance(e.op, (ast.FloorDiv, ast.Mod)) and r == 0):
+                    return ops[type(e.op)](l, r)
+            if isinstance(e.op, ast.Add) and isinstance(l, tuple) and isinstance(r, tuple):
+                return l + r
+            raise pa.Unknown(f'{f.name}: operator in `{norm(e)[:40]}`')
+        if isinstance(e, ast.Attribute):
+            if isinstance(e.value, ast.Name) and e.value.id not in env or not isinstance(e.value, ast.Name) and self.prog.dotted(f.mod, e):
+                raise pa.Unknown(f'{f.name}: `{norm(e)[:40]}`')
+            v = self.ev(f, e.value, env)
+            if isinstance(v, pa.PArr):
+                if e.attr == 'shape':
+                    return v.shape
+                if e.attr == 'T':
+                    return v.transpose()
+                if e.attr == 'ndim':
+                    return len(v.shape)
+            raise pa.Unknown(f'{f.name}: attribute `{norm(e)[:40]}`')
+        if isinstance(e, ast.Subscript):
+            if isinstance(e.value, ast.Name) and e.value.id not in env and e.value.id in f.mod.assigns:
+                inner = self.ev(f, e.slice, env)
+                if isinstance(inner, pa.PArr):
+                    return inner.table(e.value.id)
+                raise pa.Unknown(f'{f.name}: table index `{norm(e)[:40]}`')
+            v = self.ev(f, e.value, env)
+            if isinstance(v, pa.PArr):
+                return v[self.index(f, e.slice, env)]
+            if isinstance(v, (tuple, list)):
+                i = self.index(f, e.slice, env)
+                if isinstance(i, (int, slice)):
+                    return v[i]
+            raise pa.Unknown(f'{f.name}: subscript `{norm(e)[:40]}`')
+        if isinstance(e, ast.Call):
+            return self.call(f, e, env)
+        raise pa.Unknown(f'{f.name}: expression `{norm(e)[:40]}`')
+
+    def call(self, f, e, env):
+        fn = e.func
+        kw = {k.arg: k.value for k in e.keywords if k.arg}
+        d = self.prog.dotted(f.mod, fn) if isinstance(fn, (ast.Name, ast.Attribute)) else None
+        if isinstance(fn, ast.Name) and fn.id == 'range':
+            a = [self.ev(f, x, env) for x in e.args]
+            if all(isinstance(x, int) for x in a):
+                return range(*a)
+        if isinstance(fn, ast.Name) and fn.id == 'len':
+            v = self.ev(f, e.args[0], env)
+            return v.shape[0] if isinstance(v, pa.PArr) else len(v)
+        if isinstance(fn, ast.Name) and fn.id in ('enumerate', 'list', 'tuple') and len(e.args) == 1:
+            v = self.ev(f, e.args[0], env)
+            if isinstance(v, (range, list, tuple)):
+                return list(enumerate(v)) if fn.id == 'enumerate' else (list(v) if fn.id == 'list' else tuple(v))
+        if d and d.startswith('numpy.'):
+            name = d.split('.')[-1]
+
+            def arg(i, k=None, default=None):
+                if len(e.args) > i:
+                    return self.ev(f, e.args[i], env)
+                if k in kw:
+                    return self.ev(f, kw[k], env)
+                return default
+            if name in ('zeros', 'empty'):
+                shp = arg(0, 'shape')
+                shp = (shp,) if isinstance(shp, int) else shp
+                if name == 'zeros':
+                    return pa.PArr.zeros(shp)
+                return pa.PArr.inputs(shp, 'UNINITIALISED')
+            if name in ('zeros_like', 'empty_like'):
+                v = arg(0)
+                return pa.PArr.zeros(v.shape) if name == 'zeros_like' else pa.PArr.inputs(v.shape, 'UNINITIALISED')
+            if name in ('array', 'asarray', 'ascontiguousarray', 'copy', 'stack'):
+                v = arg(0)
+                if isinstance(v, pa.PArr):
+                    return v.copy()
+                if isinstance(v, (list, tuple)):
+                    ax = arg(99, 'axis', 0) if name == 'stack' else 0
+                    return pa.PArr.stack(list(v), ax)
+            if name == 'roll':
+                v, sh, ax = arg(0, 'a'), arg(1, 'shift'), arg(2, 'axis')
+                if isinstance(v, pa.PArr) and isinstance(sh, int) and (ax is None or isinstance(ax, int)):
+                    return v.roll(sh, ax)
+            if name == 'bitwise_xor' and len(e.args) == 2:
+                return self.ev(f, e.args[0], env).xor(self.ev(f, e.args[1], env))
+            if name in ('swapaxes',):
+                return arg(0).swapaxes(arg(1), arg(2))
+            if name == 'transpose':
+                return arg(0).transpose(arg(1, 'axes'))
+            if name == 'reshape':
+                return arg(0).reshape(arg(1))
+            if name == 'expand_dims':
+                v, ax = arg(0), arg(1, 'axis')
+                shp = list(v.shape)
+                shp.insert(ax % (len(shp) + 1), 1)
+                return v.reshape(shp)
+            raise pa.Unknown(f'{f.name}: numpy.{name}')
+        if isinstance(fn, ast.Attribute) and d is None:
+            v = self.ev(f, fn.value, env)
+            if isinstance(v, pa.PArr):
+                a = [self.ev(f, x, env) for x in e.args]
+                if fn.attr == 'reshape':
+                    return v.reshape(a[0] if len(a) == 1 and isinstance(a[0], (tuple, list)) else a)
+                if fn.attr in ('astype', 'copy', 'view'):
+                    return v.copy()
+                if fn.attr == 'swapaxes' and len(a) == 2:
+                    return v.swapaxes(*a)
+                if fn.attr == 'transpose':
+                    return v.transpose(a[0] if len(a) == 1 and isinstance(a[0], (tuple, list)) else (a or None))
+                if fn.attr == 'squeeze' and not a:
+                    return v.reshape([d_ for d_ in v.shape if d_ != 1])
+            raise pa.Unknown(f'{f.name}: method `{norm(fn)[:40]}`')
+        r = self.prog.resolve(f.mod, fn) if isinstance(fn, (ast.Name, ast.Attribute)) else None
+        if r and r[0] == 'func' and self.depth < 3:
+            callee = r[1]
+            if callee.name.startswith('_is_bytes'):
+                return None
+            bind = {}
+            for i, a in enumerate(e.args):
+                bind[callee.params[i]] = self.ev(f, a, env)
+            for k, v in kw.items():
+                bind[k] = self.ev(f, v, env)
+            if set(bind) != set(callee.params):
+                raise pa.Unknown(f'{f.name}: call of {callee.name} leaves parameters to their defaults')
+            return MixEval(self.prog, callee.mod, self.depth + 1).run(callee, [bind[p_] for p_ in callee.params])
+        raise pa.Unknown(f'{f.name}: call `{norm(fn)[:40]}`')
+
+
+class _Ret(Exception):
+    def __init__(self, value):
+        self.value = value
 
 
 def d3(ctx, prog):
+    """mix_column / inv_mix_column on (2,4) and (4,) inputs, mix_columns / inv_mix_columns on (2,16) and (16,) inputs: output
+    byte j of column c of item n must be exactly the xor of  coef[(r - j) mod 4] . in[n, c, r]  for r = 0..3 - the FIPS-197
+    circulant - and nothing else (in particular no uninitialised buffer element)."""
     names = {1: 'ID', 2: 'XTIME_2', 3: 'XTIME_3', 9: 'XTIME_9', 11: 'XTIME_11', 13: 'XTIME_13', 14: 'XTIME_14'}
-    for fname, first in (('mix_column', [2, 3, 1, 1]), ('inv_mix_column', [14, 11, 13, 9])):
+
+    def show(edges):
+        return sorted((t if t != 'ID' else '1', b) for t, b in edges)
+    for fname, first, width in (('mix_column', [2, 3, 1, 1], 4), ('inv_mix_column', [14, 11, 13, 9], 4), ('mix_columns', [2, 3, 1, 1], 16), ('inv_mix_columns', [14, 11, 13, 9], 16)):
         f = prog.need_func(A, fname)
         key = f'{f.key}::dependency relation'
+        edges = 0
+        bad = None
         try:
-            got = mix_relation(f)
-        except AnalysisError as e:
-            ctx.undecided('C05-D3', key, str(e), f.where())
+            for shape in ((2, width), (width,)):
+                x = pa.PArr.inputs(shape)
+                y = MixEval(prog, f.mod).run(f, [x])
+                if not isinstance(y, pa.PArr) or y.shape != tuple(shape):
+                    bad = bad or f'{fname} on a {shape} input returns {getattr(y, "shape", type(y).__name__)}'
+                    continue
+                for o in range(len(y.flat)):
+                    base, j = o - o % 4, o % 4
+                    want = frozenset((names[first[(r - j) % 4]], base + r) for r in range(4))
+                    edges += 4
+                    if y.flat[o] != want and bad is None:
+                        bad = f'{fname} on a {shape} input: output byte {o} is built from {show(y.flat[o])}; FIPS-197 requires {show(want)} (coefficient . input byte)'
+        except pa.Unknown as e:
+            ctx.undecided('C05-D3', key, f'not evaluable: {e}', f.where())
             continue
-        exp = [{(names[first[(r - j) % 4]], r) for r in range(4)} for j in range(4)]
-        if got == exp:
-            ctx.ok('C05-D3', key, f'{fname}: out[j] = xor_r {first}[(r-j) mod 4] . in[r] - the FIPS-197 circulant (16 table edges)', f.where(), edges=16)
+        if bad:
+            ctx.fail('C05-D3', key, bad, f.where())
         else:
-            j = next(i for i in range(4) if got[i] != exp[i])
-            ctx.fail('C05-D3', key, f'{fname}: output byte {j} is built from {sorted(got[j])}; FIPS-197 requires {sorted(exp[j])}', f.where())
-        # zero start
-        inits = [s for s in f.node.body if isinstance(s, ast.Assign) and norm(s.targets[0]) == 'out']
-        ctx.check(bool(inits) and norm(inits[0].value.func).split('.')[-1] == 'zeros', 'C05-D3', f'{f.key}::accumulator', 'the xor accumulator does not start from zeros', 'xor accumulator starts from zeros', f.where())
-    for fname, inner in (('mix_columns', 'mix_column'), ('inv_mix_columns', 'inv_mix_column')):
-        f = prog.need_func(A, fname)
-        txt = norm(f.node).replace(' ', '')
-        p = f.params[0]
-        ok = f'data={p}.reshape((-1,4,4))' in txt and 'forcolinrange(4):' in txt and f'out[:,col]={inner}(data[:,col])' in txt and 'returnout.reshape(dims)' in txt \
-            and f'dims={p}.shape' in txt
-        ctx.pattern(ok, 'C05-D3', f'{f.key}::per column', f'{fname} does not apply {inner} to each of the four 4-byte groups of the (...,4,4) view', f'{inner} applied to each of the 4 columns', f.where())
+            ctx.ok('C05-D3', key, f'{fname}: out[j] = xor_r {first}[(r-j) mod 4] . in[r] within every 4-byte column - the FIPS-197 circulant ({edges} table edges, batch and single input)', f.where(), edges=edges)
 
 
 def d4(ctx, prog):
@@ -234,43 +410,132 @@ def d4(ctx, prog):
             kws.get('key') == 'key' and kws.get('state') == f.params[0] and (kws.get('mode') == "'decrypt'" if mode else 'mode' not in kws)
         ctx.check(ok, 'C05-D4', f'{f.key}::call', f'{fname} does not forward its arguments (and mode) to _parametric_cipher unchanged: {kws}', f'{fname} forwards state, key, stop point' + (', mode=decrypt' if mode else ''), f.where())
     pk = prog.need_func(A, '_prepare_keys')
-    flips = [s for s in ast.walk(pk.node) if isinstance(s, ast.Assign) and isinstance(s.value, ast.Call) and norm(s.value.func).split('.')[-1] == 'flip']
+    flips = [s for s in ast.walk(pk.node) if isinstance(s, ast.Assign) and reversal(s.value) is not None]
     pm = astutil.parents(pk.node)
-    ok = len(flips) == 1 and norm(flips[0].targets[0]) == 'round_keys' and norm(flips[0].value.args[0]) == 'round_keys' and \
-        any(k.arg == 'axis' and const_value(k.value) == 1 for k in flips[0].value.keywords) and \
+    ok = len(flips) == 1 and norm(flips[0].targets[0]) == 'round_keys' and reversal(flips[0].value) == ('round_keys', 1) and \
         any(pol and norm(t).replace(' ', '') == "mode=='decrypt'" for t, pol in astutil.guards(flips[0], pm))
     ctx.check(ok, 'C05-D4', f'{pk.key}::reverse for decrypt', 'the round keys are not reversed along the round axis (axis 1 of (keys, rounds, 16)) exactly for decryption',
               'round-key axis reversed for decryption only', pk.where())
-    from .. import inline
-    pc0 = prog.need_func(A, '_parametric_cipher')
-    pc = inline.inlined(prog, pc0, skip={'_prepare_rounds', '_prepare_keys', '_is_bytes_of_len', '_identity'})
-    key = f'{pc0.key}::round loop'
-    loops = [l for l in ast.walk(pc.node) if isinstance(l, ast.For) and isinstance(l.iter, ast.Call) and norm(l.iter.func) == 'enumerate' and norm(l.iter.args[0]) == 'rounds'
-             and isinstance(l.target, ast.Tuple) and len(l.target.elts) == 2 and all(isinstance(x, ast.Name) for x in l.target.elts)]
-    if len(loops) != 1:
-        ctx.undecided('C05-D4', key, 'the loop over the prepared rounds (for i, ops in enumerate(rounds)) was not found', pc0.where())
-        return
-    ri, rops = loops[0].target.elts[0].id, loops[0].target.elts[1].id
-    inner = [l for l in ast.walk(loops[0]) if isinstance(l, ast.For) and l is not loops[0] and (norm(l.iter) == rops or (isinstance(l.iter, ast.Call) and norm(l.iter.func) == 'enumerate' and norm(l.iter.args[0]) == rops))]
-    if len(inner) != 1:
-        ctx.undecided('C05-D4', key, 'the loop over the operations of a round was not found', pc0.where())
-        return
-    opv = inner[0].target.id if isinstance(inner[0].target, ast.Name) else (inner[0].target.elts[-1].id if isinstance(inner[0].target, ast.Tuple) and isinstance(inner[0].target.elts[-1], ast.Name) else None)
-    calls_ark = [c for c in ast.walk(inner[0]) if isinstance(c, ast.Call) and norm(c.func) in ('add_round_key', opv) and any(k.arg == 'keys' for k in c.keywords)]
-    ok = bool(calls_ark) and all(norm(next(k.value for k in c.keywords if k.arg == 'keys')).replace(' ', '') == f'round_keys[:,{ri},:]' for c in calls_ark)
-    if calls_ark:
-        ctx.check(ok, 'C05-D4', f'{pc0.key}::round key index', f'round {ri} does not use round_keys[:, {ri}, :] (`{norm(calls_ark[0])[:70]}`)', f'round {ri} uses round_keys[:, {ri}, :]', pc0.where())
-    else:
-        ctx.undecided('C05-D4', f'{pc0.key}::round key index', 'the key-mixing call (keys=...) was not found in the round loop', pc0.where())
-    # every operation is applied to the running state, which is what the next operation receives
-    applies = [s for s in ast.walk(inner[0]) if isinstance(s, ast.Assign) and isinstance(s.value, ast.Call) and norm(s.value.func) in (opv, 'add_round_key')]
-    good = bool(applies)
-    for a_ in applies:
-        tgt = norm(a_.targets[0])
-        arg = next((norm(k.value) for k in a_.value.keywords if k.arg == 'state'), norm(a_.value.args[0]) if a_.value.args else None)
-        good = good and arg == tgt
-    ctx.pattern(good and len({norm(a_.targets[0]) for a_ in applies}) == 1, 'C05-D4', f'{pc0.key}::apply operation', 'operations are not applied to the running state in list order',
-                'each operation applied to the running state, in list order', pc0.where())
+    driver(ctx, prog)
+
+
+def reversal(e):
+    """(base text, axis) when e is its base reversed along one axis: np.flip(x, axis=a) / np.flip(x, a) / x[:, ::-1] / x[:, ::-1, :]"""
+    if isinstance(e, ast.Call) and last_name(e.func) == 'flip' and e.args:
+        ax = next((k.value for k in e.keywords if k.arg == 'axis'), e.args[1] if len(e.args) > 1 else None)
+        return (norm(e.args[0]), const_value(ax)) if ax is not None and isinstance(const_value(ax), int) else None
+    if isinstance(e, ast.Subscript):
+        elts = e.slice.elts if isinstance(e.slice, ast.Tuple) else [e.slice]
+        rev = [i for i, x in enumerate(elts) if isinstance(x, ast.Slice) and x.lower is None and x.upper is None and x.step is not None and const_value(x.step) == -1]
+        full = [i for i, x in enumerate(elts) if isinstance(x, ast.Slice) and x.lower is None and x.upper is None and (x.step is None or const_value(x.step) == 1)]
+        if len(rev) == 1 and len(rev) + len(full) == len(elts):
+            return norm(e.value), rev[0]
+    return None
+
+
+def last_name(fn):
+    return norm(fn).split('.')[-1]
+
+
+def driver(ctx, prog):
+    """the cipher driver applies the prepared rounds in order to the running state, add_round_key of round i with round key i:
+    _parametric_cipher is interpreted (sa.confinterp) with every primitive, _prepare_keys and the argument check opaque, for every
+    key size and stop point; the value it returns must be the composition, in order, of exactly the operations _prepare_rounds
+    returned (captured in the same evaluation), each applied to the previous result, key indexes = round numbers."""
+    from .. import confinterp as ci
+    m = prog.need_mod(A)
+    pc = prog.need_func(A, '_parametric_cipher')
+    pr = prog.need_func(A, '_prepare_rounds')
+    pk = prog.need_func(A, '_prepare_keys')
+    ark = prog.need_func(A, 'add_round_key')
+    prims = [prog.need_func(A, n_) for n_ in ('sub_bytes', 'shift_rows', 'mix_columns', 'add_round_key', 'inv_sub_bytes', 'inv_shift_rows', 'inv_mix_columns')]
+    key = f'{pc.key}::round loop'
+    lists = {n_: None for n_ in ('_ENC_FIRST_ROUND', '_ENC_ROUND', '_ENC_LAST_ROUND', '_DEC_FIRST_ROUND', '_DEC_ROUND', '_DEC_LAST_ROUND')}
+    configs = 0
+    bad = []
+    try:
+        for mode, triple in (('encrypt', ('_ENC_FIRST_ROUND', '_ENC_ROUND', '_ENC_LAST_ROUND')), ('decrypt', ('_DEC_FIRST_ROUND', '_DEC_ROUND', '_DEC_LAST_ROUND'))):
+            for nrk in (11, 13, 15):
+                for ndim in (2, 1):
+                    for ar in [None] + list(range(nrk)):
+                        for stp in range(4):
+                            if ndim == 1 and not (ar in (None, 0, 1, nrk - 1) and stp in (0, 3)):
+                                continue
+                            it = ci.Interp(prog)
+                            it.opaque_funcs = {f_.key for f_ in prims} | {pk.key} | {f_.key for f_ in prog.funcs_in(A) if f_.name.startswith('_is_bytes')}
+                            it.opaque_attrs = {pk.key: lambda args, kwargs, nrk=nrk: {'shape': (2, nrk, 16), 'ndim': 3}}
+                            captured = []
+                            orig_call = it.call
+
+                            def call(func, args=(), kwargs=None, selfobj=None, depth=0, orig_call=orig_call, captured=captured):
+                                r = orig_call(func, args, kwargs, selfobj, depth)
+                                if func is pr:
+                                    captured.append([list(x) for x in r])
+                                return r
+                            it.call = call
+                            ops = ci.TList([it.module_value(m, t_) for t_ in triple])
+                            state = ci.Sym('state', attrs={'ndim': ndim, 'shape': (16,) if ndim == 1 else (2, 16)})
+                            try:
+                                res = orig_call(pc, (), dict(state=state, key=ci.Sym('key', attrs={'ndim': 2, 'shape': (2, (nrk - 7) * 4)}), operations=ops, after_step=stp, at_round=ar, mode=mode))
+                            except ci.Raised:
+                                continue
+                            if len(captured) != 1:
+                                raise ci.Unknown('_prepare_rounds is not called exactly once')
+                            configs += 1
+                            want = [(o.func.name, r) for r, rops in enumerate(captured[0]) for o in rops if isinstance(o, ci.Sym) and getattr(o, 'func', None) is not None and o.func.name != '_identity']
+                            got, base = unchain(res, ark.name)
+                            got.reverse()
+                            label = f'{mode}, {nrk} round keys, at_round={ar}, after_step={stp}, {ndim}-d state'
+                            if got is None or [g_[0] for g_ in got] != [w_[0] for w_ in want]:
+                                bad.append(f'{label}: the operations applied to the state are {[g_[0] for g_ in got][:9]}...; the prepared rounds are {[w_[0] for w_ in want][:9]}...')
+                            elif any(g_[1] != w_[1] for g_, w_ in zip(got, want) if w_[0] == ark.name):
+                                g_, w_ = next((g_, w_) for g_, w_ in zip(got, want) if w_[0] == ark.name and g_[1] != w_[1])
+                                bad.append(f'{label}: add_round_key of round {w_[1]} is given {g_[1]}, not round key {w_[1]} (round_keys[:, {w_[1]}, :])')
+                            elif 'state' not in base.name:
+                                bad.append(f'{label}: the first operation is applied to {base.name[:60]}, which is not derived from the input state')
+        if bad:
+            ctx.fail('C05-D4', key, f'{bad[0]} ({len(bad)} configurations differ)', pc.where(), differing=len(bad))
+        else:
+            ctx.ok('C05-D4', key, f'{configs} configurations (mode x key size x stop point x state rank): the value returned is the prepared operations applied in order to the '
+                   'running state, add_round_key of round i with round_keys[:, i, :]', pc.where(), configurations=configs)
+    except ci.Unknown as e:
+        ctx.undecided('C05-D4', key, f'driver not evaluable: {e}', pc.where())
+    ctx.floor('C05 driver configurations interpreted', configs, 300)
+
+
+LAYOUT_ONLY = ('squeeze', 'copy', 'reshape', 'astype', 'view')
+
+
+def unchain(v, ark_name):
+    """[(operation name, key index)] from the outermost application inwards, and the innermost value"""
+    from .. import confinterp as ci
+    out = []
+    while isinstance(v, ci.Sym) and v.term is not None:
+        t = v.term
+        if getattr(v, 'method', None) in LAYOUT_ONLY:
+            v = v.recv
+            continue
+        if t[0] == 'call':
+            name, args, kws = t[1], t[2], dict(t[3])
+            nm = name.split('.')[-1]
+            if nm in ('array', 'asarray', 'ascontiguousarray', 'copy', 'squeeze'):
+                break
+            st = kws.get('state', args[0] if args else None)
+            if st is None:
+                break
+            idx = None
+            if nm == ark_name:
+                k = kws.get('keys', args[1] if len(args) > 1 else None)
+                if isinstance(k, ci.Sym) and k.term is not None and k.term[0] == 'index' and isinstance(k.term[2], tuple) and len(k.term[2]) == 3 \
+                        and all(isinstance(x, slice) and x == slice(None, None, None) for x in (k.term[2][0], k.term[2][2])) and 'prepare_keys' in k.term[1].name:
+                    idx = k.term[2][1]
+                else:
+                    idx = k.name if isinstance(k, ci.Sym) else repr(k)
+            out.append((nm, idx))
+            v = st
+            continue
+        break
+    return out, v
 
 
 def d6(ctx, prog):
@@ -443,7 +708,7 @@ def run(ctx, prog):
     d4(ctx, prog)
     n5 = ownership(ctx, prog, A, 'C05-D5')
     n6 = d6(ctx, prog)
-    ctx.floor('buffer allocations judged (aes)', buffer_dtypes(ctx, prog, A, 'C05-D2'), 6)
+    ctx.floor('buffer allocations judged (aes)', buffer_dtypes(ctx, prog, A, 'C05-D2'), 2)
     ctx.floor('stop points composed (aes)', n6, 2 * 3 * 12 * 5)
     ctx.floor('table entries compared', n1, 256 * 8 + 32 + 10)
     ctx.floor('in-place effects judged (aes)', n5, 8)
